@@ -389,6 +389,8 @@ func MatchPair(pk *load.Package, tlaPath string, tabs *scalatab.Tables, fset *to
 			} else if nw, ng := NormalizeStream(want), NormalizeStream(g.Stream); eq(nw, ng) {
 				// same section up to where the continuation of a conditional is written and the polarity of its test
 				add(key, "ok", g.Pos, "%d tokens agree (normal form: continuations pushed into the arms, tests un-negated)", len(nw))
+			} else if cw, cg := CommutativeNorm(nw), CommutativeNorm(ng); eq(cw, cg) {
+				add(key, "ok", g.Pos, "%d tokens agree (normal form; operands of =, #, +, *, \\cup, \\cap and set literals in lexical order)", len(cw))
 			} else {
 				add(key, "bad", g.Pos, "the generated critical section differs from the spec's label %s: %s", s.Label, diff(nw, ng))
 			}
@@ -543,6 +545,8 @@ func MatchPair(pk *load.Package, tlaPath string, tabs *scalatab.Tables, fset *to
 		want := canon.Expr(d.Body)
 		if eq(want, op.Stream) {
 			add(key, "ok", op.Pos, "%d tokens agree", len(want))
+		} else if cw, cg := CommutativeNorm(want), CommutativeNorm(op.Stream); eq(cw, cg) {
+			add(key, "ok", op.Pos, "%d tokens agree (operands of =, #, +, *, \\cup, \\cap and set literals in lexical order)", len(cw))
 		} else {
 			add(key, "bad", op.Pos, "operator %s differs from its definition: %s", d.Name, diff(want, op.Stream))
 		}
